@@ -1,6 +1,6 @@
 (* C17/Props.v — the property theorems claimed for C17, nothing else.
    Each is closed by [exact] of a lemma from Proofs*.v and followed by Print Assumptions. *)
-Require Import Base.Prelude Base.XVal C17.Model C17.ProofsGlue C17.ProofsCell C17.ProofsStats C17.ProofsCombine.
+Require Import Base.Prelude Base.XVal C17.Model C17.ProofsGlue C17.ProofsCell C17.ProofsStats C17.ProofsCombine C17.ProofsPopularity.
 From Coq Require Import QArith Permutation Sorted.
 Open Scope Z_scope.
 
@@ -136,6 +136,29 @@ Theorem C17_cell_stats_median : forall t, has_nan t = false ->
        stat_median t = qdiv_n (xadd (nthZ XNaN s (lenZ t / 2 - 1)) (nthZ XNaN s (lenZ t / 2))) 2).
 Proof. exact stat_median_spec. Qed.
 Print Assumptions C17_cell_stats_median.
+
+(* popularity, as the code computes it: with D = the distinct layer values in strictly ascending
+   order, the cell is NaN when no value occurs twice (|D| = number of layers), the common value when
+   all layers agree (whatever the reference), otherwise the ref-th smallest distinct value for
+   1 <= ref <= |D| and NaN for ref > |D|.  (Not a ranking by number of occurrences.) *)
+Theorem C17_popularity_spec : forall ref t, has_nan t = false ->
+  exists D, StronglySorted (fun a b => xltb a b = true) D /\ (forall x, In x D <-> In x t) /\ lenZ D <= lenZ t /\
+    (lenZ t <= lenZ D -> popularity_cell ref t = Some XNaN) /\
+    (lenZ D < lenZ t -> lenZ D = 1 -> popularity_cell ref t = Some (nthZ XNaN D 0)) /\
+    (lenZ D < lenZ t -> 1 < lenZ D -> 1 <= ref <= lenZ D ->
+       popularity_cell ref t = Some (nthZ XNaN D (ref - 1))) /\
+    (lenZ D < lenZ t -> 1 < lenZ D -> lenZ D < ref -> popularity_cell ref t = Some XNaN).
+Proof. exact popularity_spec. Qed.
+Print Assumptions C17_popularity_spec.
+
+Example C17_popularity_nonvacuous :
+  has_nan [XFin 2; XFin 3; XFin 2; XFin 5] = false /\
+  popularity_cell 1 [XFin 2; XFin 3; XFin 2; XFin 5] = Some (XFin 2) /\
+  popularity_cell 3 [XFin 2; XFin 3; XFin 2; XFin 5] = Some (XFin 5) /\
+  popularity_cell 4 [XFin 2; XFin 3; XFin 2; XFin 5] = Some XNaN /\
+  popularity_cell 2 [XFin 7; XFin 7; XFin 7] = Some (XFin 7) /\
+  popularity_cell 1 [XFin 1; XFin 2; XFin 3] = Some XNaN.
+Proof. vm_compute. repeat split. Qed.
 
 (* ---- non-vacuity and the defect witness -------------------------------- *)
 Definition ex_a := [[XFin 0; XFin 1; XFin 2]; [XFin 3; XFin 4; XFin 5]].
